@@ -1,39 +1,85 @@
 ---------------------------------- MODULE Nms ----------------------------------
-(* Non-maximum suppression over lattice boxes.  dets: sequence of               *)
-(* [box, score] (score = -1 : none -> rank = box height, always passes the score *)
-(* filter).  thr = <<num, den>> nms threshold, sthr = score threshold or -1 (none) *)
+(* Non-maximum suppression over lattice boxes (property C14).                     *)
+(*                                                                                *)
+(* dets : sequence of [box, score]; box is a Lattice box [x, y, w, h, k] (extra    *)
+(*        fields are ignored); score is an integer in hundredths, -1 = no score.   *)
+(*        A detection without score is ranked by its box height (h/2 units = 50 h  *)
+(*        hundredths) and always passes the score filter.                          *)
+(* thr  : <<num, den>>, the nms threshold num/den in (0, 1).                        *)
+(* sthr : score threshold in hundredths, -1 = none.                                *)
+(*                                                                                *)
+(* The result is DEFINED declaratively (IsResult); Greedy is the operational       *)
+(* definition; TLC checks (MCN) that Greedy yields the unique set satisfying the   *)
+(* declarative definition and that the operation is idempotent.                    *)
+(*                                                                                *)
+(* Rank ties: the property orders by rank only, so a tie may be broken either way. *)
+(* Every operator takes a priority function pri (index -> integer, injective)      *)
+(* that breaks ties; the operators without the suffix P use the input order        *)
+(* (a stable sort).  NmsAll is the set of lists admissible under every tie-break.  *)
 EXTENDS Integers, Sequences, FiniteSets, TLC
 L == INSTANCE Lattice
+
 Valid(d) == d.box.w > 0 /\ d.box.h > 0
-Rank(d) == IF d.score = -1 THEN d.box.h * 1000 ELSE d.score      \* common scale: caller keeps ranks distinct
+Rank(d) == IF d.score = -1 THEN 50 * d.box.h ELSE d.score
 Passes(d, sthr) == Valid(d) /\ (d.score = -1 \/ sthr = -1 \/ d.score > sthr)
 Filtered(dets, sthr) == {i \in DOMAIN dets : Passes(dets[i], sthr)}
-Higher(dets, i, j) == Rank(dets[i]) > Rank(dets[j]) \/ (Rank(dets[i]) = Rank(dets[j]) /\ i < j)   \* stable
+Ident(dets) == [i \in DOMAIN dets |-> i]
+HigherP(dets, pri, i, j) == Rank(dets[i]) > Rank(dets[j]) \/ (Rank(dets[i]) = Rank(dets[j]) /\ pri[i] < pri[j])
+Higher(dets, i, j) == HigherP(dets, Ident(dets), i, j)
+(* hi covers lo: more than thr of lo's area lies inside hi (exact integers, 1/16 units) *)
 Covers(dets, hi, lo, thr) == L!Inter16(dets[hi].box, dets[lo].box) * thr[2] > thr[1] * L!Area16(dets[lo].box)
-(* declarative result: the unique K \subseteq F with
-     top of F in K; no member covered by a higher member; every non-member covered by a higher member *)
-IsResult(dets, thr, sthr, K) ==
+(* the cover ratio equals the threshold exactly: a float implementation may go either way *)
+KnifeEdge(dets, thr, sthr) ==
+  \E i, j \in Filtered(dets, sthr) : i # j /\ L!Inter16(dets[i].box, dets[j].box) * thr[2] = thr[1] * L!Area16(dets[j].box)
+TieFree(dets, sthr) == \A i, j \in Filtered(dets, sthr) : i # j => Rank(dets[i]) # Rank(dets[j])
+
+(* ---- declarative result: K is a result iff
+     K is a subset of the filtered boxes, the top-ranked filtered box is in K,
+     no member is covered by a higher member, every non-member is covered by a higher member *)
+IsResultP(dets, thr, sthr, pri, K) ==
   LET F == Filtered(dets, sthr) IN
   /\ K \subseteq F
-  /\ \A i \in F : (\A j \in F : i = j \/ Higher(dets, i, j)) => i \in K
-  /\ \A i \in K : ~\E j \in K : Higher(dets, j, i) /\ Covers(dets, j, i, thr)
-  /\ \A i \in F \ K : \E j \in K : Higher(dets, j, i) /\ Covers(dets, j, i, thr)
-(* operational: greedy in rank order *)
-RECURSIVE Greedy(_, _, _, _)
-Greedy(dets, thr, todo, kept) ==
+  /\ \A i \in F : (\A j \in F : i = j \/ HigherP(dets, pri, i, j)) => i \in K
+  /\ \A i \in K : ~\E j \in K : HigherP(dets, pri, j, i) /\ Covers(dets, j, i, thr)
+  /\ \A i \in F \ K : \E j \in K : HigherP(dets, pri, j, i) /\ Covers(dets, j, i, thr)
+IsResult(dets, thr, sthr, K) == IsResultP(dets, thr, sthr, Ident(dets), K)
+
+(* ---- operational: greedy in rank order *)
+RECURSIVE GreedyP(_, _, _, _, _)
+GreedyP(dets, thr, pri, todo, kept) ==
   IF todo = {} THEN kept
-  ELSE LET i == CHOOSE x \in todo : \A y \in todo : x = y \/ Higher(dets, x, y) IN
-       IF \E j \in kept : Covers(dets, j, i, thr) THEN Greedy(dets, thr, todo \ {i}, kept)
-       ELSE Greedy(dets, thr, todo \ {i}, kept \cup {i})
-NmsSet(dets, thr, sthr) == Greedy(dets, thr, Filtered(dets, sthr), {})
+  ELSE LET i == CHOOSE x \in todo : \A y \in todo : x = y \/ HigherP(dets, pri, x, y) IN
+       IF \E j \in kept : Covers(dets, j, i, thr) THEN GreedyP(dets, thr, pri, todo \ {i}, kept)
+       ELSE GreedyP(dets, thr, pri, todo \ {i}, kept \cup {i})
+NmsSetP(dets, thr, sthr, pri) == GreedyP(dets, thr, pri, Filtered(dets, sthr), {})
+NmsSet(dets, thr, sthr) == NmsSetP(dets, thr, sthr, Ident(dets))
 (* the returned list: members in rank order *)
-RECURSIVE Order(_, _)
-Order(dets, S) == IF S = {} THEN <<>> ELSE LET i == CHOOSE x \in S : \A y \in S : x = y \/ Higher(dets, x, y) IN <<i>> \o Order(dets, S \ {i})
-Nms(dets, thr, sthr) == Order(dets, NmsSet(dets, thr, sthr))
-GreedyIsTheResult(dets, thr, sthr) ==
-  /\ IsResult(dets, thr, sthr, NmsSet(dets, thr, sthr))
-  /\ \A K \in SUBSET Filtered(dets, sthr) : IsResult(dets, thr, sthr, K) => K = NmsSet(dets, thr, sthr)
+RECURSIVE OrderP(_, _, _)
+OrderP(dets, pri, S) ==
+  IF S = {} THEN <<>>
+  ELSE LET i == CHOOSE x \in S : \A y \in S : x = y \/ HigherP(dets, pri, x, y) IN <<i>> \o OrderP(dets, pri, S \ {i})
+NmsP(dets, thr, sthr, pri) == OrderP(dets, pri, NmsSetP(dets, thr, sthr, pri))
+Nms(dets, thr, sthr) == NmsP(dets, thr, sthr, Ident(dets))
+Perms(S) == {p \in [S -> S] : \A a, b \in S : a # b => p[a] # p[b]}
+(* every list the property admits (one list when ranks are distinct) *)
+NmsAll(dets, thr, sthr) ==
+  IF TieFree(dets, sthr) THEN {Nms(dets, thr, sthr)}
+  ELSE {NmsP(dets, thr, sthr, p) : p \in Perms(DOMAIN dets)}
+
+(* ---- facts checked by TLC *)
+GreedyIsTheResultP(dets, thr, sthr, pri) ==
+  /\ IsResultP(dets, thr, sthr, pri, NmsSetP(dets, thr, sthr, pri))
+  /\ \A K \in SUBSET Filtered(dets, sthr) : IsResultP(dets, thr, sthr, pri, K) => K = NmsSetP(dets, thr, sthr, pri)
+GreedyIsTheResult(dets, thr, sthr) == GreedyIsTheResultP(dets, thr, sthr, Ident(dets))
+Sub(dets, out) == [i \in DOMAIN out |-> dets[out[i]]]
 Idempotent(dets, thr, sthr) ==
-  LET out == Nms(dets, thr, sthr)  d2 == [i \in DOMAIN out |-> dets[out[i]]] IN
-  Nms(d2, thr, sthr) = [i \in DOMAIN out |-> i]
+  LET out == Nms(dets, thr, sthr) IN Nms(Sub(dets, out), thr, sthr) = [i \in DOMAIN out |-> i]
+(* the list is rank-descending and contains no box that failed the filter *)
+Ordered(dets, thr, sthr) ==
+  LET out == Nms(dets, thr, sthr) IN
+  /\ \A i, j \in DOMAIN out : i < j => Higher(dets, out[i], out[j])
+  /\ \A i \in DOMAIN out : Passes(dets[out[i]], sthr)
+(* non-triviality: something is suppressed while a box other than the top one survives *)
+Interesting(dets, thr, sthr) ==
+  LET K == NmsSet(dets, thr, sthr) IN Cardinality(K) >= 2 /\ Filtered(dets, sthr) \ K # {}
 =============================================================================
